@@ -1,5 +1,5 @@
 """vplib.check — one property check, end to end (DESIGN.md §3.2)."""
-import hashlib, json, os, random, sys, time
+import hashlib, json, os, random, re, sys, time
 
 from . import core
 from .api import Case, same_result, show
@@ -94,6 +94,18 @@ def check(pid, tier="quick", seed=None, only_cases=None):
             if not good:
                 machinery_broken.append("theorem %s depends on axioms outside the allow-list: %s" % (name, bad or txt[:200]))
     discharged = obligations if rc == 0 else max(0, obligations - len(merrs))
+    chk_info = None
+    if rc == 0 and tier == "thorough" and targets:
+        okk, chk_info, cdt2 = core.coqchk("PdfV." + targets[0].replace("/", "."))
+        log("coqchk %s in %.0fs" % ("ok" if okk else "FAILED", cdt2))
+        if not okk:
+            broken.append("coqchk rejects the compiled development: %s" % str(chk_info)[-300:])
+        else:
+            ax = chk_info["axioms"]
+            names = [a for a in re.findall(r"([\w.']+)\s*:", ax)] if "<none>" not in ax else []
+            badax = [n for n in names if n not in core.ALLOWED_AXIOMS and n.split(".")[-1] not in core.ALLOWED_AXIOMS]
+            if badax or any("<none>" not in chk_info[k] for k in ("type_in_type", "unsafe_fixpoints", "assumed_positivity")):
+                machinery_broken.append("coqchk reports assumptions outside the allow-list: %s" % json.dumps(chk_info)[:400])
 
     if not okc:
         # the repository no longer builds with the harness: nothing can be observed
@@ -293,9 +305,10 @@ def check(pid, tier="quick", seed=None, only_cases=None):
                 tag_hist[t] = tag_hist.get(t, 0) + 1
     coverage = {
         "obligations": obligations, "discharged": discharged,
-        "checker_cmd": "make -C coq " + " ".join("theories/%s.vo" % t for t in targets) + " (full .vo) ; coqc Print Assumptions ; lint grep",
+        "checker_cmd": "make -C coq " + " ".join("theories/%s.vo" % t for t in targets) + " (full .vo) ; coqc Print Assumptions ; lint grep" + (" ; coqchk -silent -o PdfV.%s" % targets[0].replace("/", ".") if tier == "thorough" and targets else ""),
         "trusted_base": getattr(P, "TRUSTED_BASE", []),
         "assumptions_printed": assum,
+        "coqchk": chk_info,
         "theorems": ["%s.%s" % t for t in getattr(P, "THEOREMS", [])],
         "cone_files": cone,
         "generated_tables": {"sha256": tinfo.get("sha256"), "anchors_missing": tinfo.get("anchors_missing", [])},
